@@ -4,6 +4,7 @@ import (
 	"context"
 	"fmt"
 	"io"
+	"os"
 	"sort"
 	"strings"
 	"testing"
@@ -118,7 +119,7 @@ func drawCfg(r *simkit.Run) cfg {
 	c.Auth = tp.Intn(4) != 3
 	c.SetUID = tp.Intn(4) != 3
 	c.QueueCap = 8 - tp.Weighted([]int{5, 1, 1, 1, 2, 1, 2, 1}) // 8..1
-	c.Workers = []int{8, 1, 2}[tp.Weighted([]int{3, 5, 1})]
+	c.Workers = []int{1, 8, 2}[tp.Weighted([]int{6, 2, 1})]
 	c.BatchWait = []time.Duration{time.Millisecond, -1, 5 * time.Millisecond}[tp.Weighted([]int{3, 2, 1})]
 	c.BatchRecords = []int{128, 1, 2, 3, 8}[tp.Intn(5)]
 	c.BatchBytes = []int{512 * 1024, 24, 100}[tp.Weighted([]int{4, 1, 1})]
@@ -183,6 +184,14 @@ func runC23(t *testing.T, r *simkit.Run) {
 	runWorld(t, r)
 }
 
+// dumpTrace is a debugging aid: GATESIM_TRACE=<file> writes the trace of the
+// last executed run.
+func dumpTrace(r *simkit.Run) {
+	if p := os.Getenv("GATESIM_TRACE"); p != "" {
+		_ = os.WriteFile(p, []byte(strings.Join(r.Trace(), "\n")+"\n"), 0o644)
+	}
+}
+
 type engine struct {
 	q   *gworld
 	srv *core.Server
@@ -227,7 +236,7 @@ func runWorld(t *testing.T, r *simkit.Run) {
 				}
 				return 50 * time.Microsecond
 			},
-			Done: func() bool { return q.tainted || e.stopped },
+			Done: func() bool { return q.tainted || e.stopped || e.workDone() },
 			Idle: e.idle}
 		s.Run()
 		if !r.Failed() && r.InfraErr == "" && !q.tainted {
@@ -243,6 +252,7 @@ func runWorld(t *testing.T, r *simkit.Run) {
 			r.Nontrivial = (e.splitSeen && e.handlerSeen >= 3) || r.Faults["corrupt_bitflip"]+r.Faults["corrupt_truncate"]+r.Faults["corrupt_oversize_length"]+r.Faults["corrupt_garbage"] > 0
 		}
 	})
+	dumpTrace(r)
 }
 
 func (e *engine) setup() bool {
@@ -403,6 +413,31 @@ func (e *engine) pendingWork() bool {
 	return false
 }
 
+// workDone: every client wrote its whole plan (or lost its connection), every
+// byte was delivered both ways and nothing is in flight.
+func (e *engine) workDone() bool {
+	q := e.q
+	if q.w.NumPending() > 0 || e.stopping {
+		return false
+	}
+	for _, cl := range q.clients {
+		if !cl.opened {
+			return false
+		}
+		if cl.closed {
+			continue
+		}
+		if cl.closeSent || cl.finPending {
+			return false
+		}
+		stuckAuth := cl.auth && cl.connectSent && cl.gotConnack && !cl.connackOK
+		if (cl.planLeft > 0 && !stuckAuth) || len(cl.sock) > 0 || cl.pendingOut() > 0 {
+			return false
+		}
+	}
+	return !e.pendingWork()
+}
+
 func (e *engine) idle() time.Duration {
 	if !e.pendingWork() {
 		return 0
@@ -441,19 +476,19 @@ func (e *engine) collect() []simkit.Action {
 			for _, k := range info.conns {
 				handlerConns[k] = true
 			}
-			acts = append(acts, simkit.Action{Prio: 0, Key: "release " + p.Key, Weight: 6, Do: func() {
+			acts = append(acts, simkit.Action{Prio: 0, Key: "release " + p.Key, Weight: 9, Do: func() {
 				info.plan = e.drawPlan(info, faults)
 				q.w.Release(p, decOK)
 			}})
 		case "umid":
-			acts = append(acts, simkit.Action{Prio: 0, Key: "release " + p.Key, Weight: 6, Do: func() { q.w.Release(p, decOK) }})
+			acts = append(acts, simkit.Action{Prio: 0, Key: "release " + p.Key, Weight: 9, Do: func() { q.w.Release(p, decOK) }})
 		case "frame", "open", "activate":
-			acts = append(acts, simkit.Action{Prio: 0, Key: "release " + p.Key, Weight: 6, Do: func() { q.w.Release(p, decOK) }})
+			acts = append(acts, simkit.Action{Prio: 0, Key: "release " + p.Key, Weight: 9, Do: func() { q.w.Release(p, decOK) }})
 			if faults && c.FHandlerFail {
 				acts = append(acts, simkit.Action{Prio: 5, Key: "fail " + p.Key, Weight: 1, Do: func() { q.r.Fault("handler_error_" + info.kind); q.w.Release(p, decFail) }})
 			}
 		case "auth":
-			acts = append(acts, simkit.Action{Prio: 0, Key: "release " + p.Key, Weight: 6, Do: func() { q.w.Release(p, decOK) }})
+			acts = append(acts, simkit.Action{Prio: 0, Key: "release " + p.Key, Weight: 9, Do: func() { q.w.Release(p, decOK) }})
 			if faults && c.FHandlerFail {
 				acts = append(acts, simkit.Action{Prio: 5, Key: "fail " + p.Key, Weight: 1, Do: func() { q.r.Fault("auth_error"); q.w.Release(p, decFail) }})
 				acts = append(acts, simkit.Action{Prio: 5, Key: "reject " + p.Key, Weight: 1, Do: func() { q.r.Fault("auth_reject"); q.w.Release(p, decReject) }})
@@ -481,7 +516,7 @@ func (e *engine) collect() []simkit.Action {
 		busy := conn.busy.Load()
 		// client writes more frames into its socket
 		if !e.final && !cl.closeSent && !cl.closed && cl.planLeft > 0 && len(cl.sock) < 4096 && cl.maySend() {
-			acts = append(acts, simkit.Action{Prio: 0, Key: fmt.Sprintf("csend c%d", k), Weight: 6, Do: func() { e.doClientSend(cl, faults) }})
+			acts = append(acts, simkit.Action{Prio: 0, Key: fmt.Sprintf("csend c%d", k), Weight: 3, Do: func() { e.doClientSend(cl, faults) }})
 		}
 		if !busy && !cl.closeSent && !cl.closed && len(cl.sock) > 0 {
 			acts = append(acts, simkit.Action{Prio: 0, Key: fmt.Sprintf("deliver c%d", k), Weight: 8, Do: func() { e.doDeliver(cl) }})
